@@ -452,17 +452,32 @@ class IRGenerator:
                             item.lineno, item.path)
                     env[item.target] = imported_env
 
+    @staticmethod
+    def _raise_symbol_already_defined(existing, item):
+        """
+        Reports that the name of `item` is taken by `existing`, which is
+        whatever the environment holds under that name. Not everything in an
+        environment was defined in a spec: the built-in data types have no
+        location.
+        """
+        if isinstance(existing, ApiRoutesByVersion):
+            existing = existing.at_version[min(existing.at_version)]
+        existing_ast_node = getattr(existing, '_ast_node', None)
+        if existing_ast_node is not None:
+            where = '%s:%d' % (existing_ast_node.path, existing_ast_node.lineno)
+        else:
+            where = 'built-in'
+        raise InvalidSpec(
+            'Symbol %s already defined (%s).' % (quote(item.name), where),
+            item.lineno, item.path)
+
     def _create_alias(self, env, item):
         # NOTE: I don't like supporting forward references for aliases
         # because it makes specs harder to read. But we have to so that if a
         # namespace is split across multiple files, the order they're specified
         # in the command line which affects alias ordering is irrelevant.
         if item.name in env:
-            existing_dt = env[item.name]
-            raise InvalidSpec(
-                'Symbol %s already defined (%s:%d).' %
-                (quote(item.name), existing_dt._ast_node.path,
-                existing_dt._ast_node.lineno), item.lineno, item.path)
+            self._raise_symbol_already_defined(env[item.name], item)
 
         namespace = self.api.ensure_namespace(env.namespace_name)
         alias = Alias(item.name, namespace, item)
@@ -472,11 +487,7 @@ class IRGenerator:
 
     def _create_annotation(self, env, item):
         if item.name in env:
-            existing_dt = env[item.name]
-            raise InvalidSpec(
-                'Symbol %s already defined (%s:%d).' %
-                (quote(item.name), existing_dt._ast_node.path,
-                existing_dt._ast_node.lineno), item.lineno, item.path)
+            self._raise_symbol_already_defined(env[item.name], item)
 
         namespace = self.api.ensure_namespace(env.namespace_name)
 
@@ -505,11 +516,7 @@ class IRGenerator:
 
     def _create_annotation_type(self, env, item):
         if item.name in env:
-            existing_dt = env[item.name]
-            raise InvalidSpec(
-                'Symbol %s already defined (%s:%d).' %
-                (quote(item.name), existing_dt._ast_node.path,
-                existing_dt._ast_node.lineno), item.lineno, item.path)
+            self._raise_symbol_already_defined(env[item.name], item)
 
         namespace = self.api.ensure_namespace(env.namespace_name)
 
@@ -544,7 +551,8 @@ class IRGenerator:
             params.append(AnnotationTypeParam(param.name, param_type, param.doc,
                 param.has_default, param.default, param))
 
-        annotation_type = AnnotationType(item.name, namespace, item.doc, params)
+        annotation_type = AnnotationType(item.name, namespace, item.doc, params,
+                                         ast_node=item)
 
         env[item.name] = annotation_type
         return annotation_type
@@ -552,11 +560,7 @@ class IRGenerator:
     def _create_type(self, env, item):
         """Create a forward reference for a union or struct."""
         if item.name in env:
-            existing_dt = env[item.name]
-            raise InvalidSpec(
-                'Symbol %s already defined (%s:%d).' %
-                (quote(item.name), existing_dt._ast_node.path,
-                 existing_dt._ast_node.lineno), item.lineno, item.path)
+            self._raise_symbol_already_defined(env[item.name], item)
         namespace = self.api.ensure_namespace(env.namespace_name)
         if isinstance(item, AstStructDef):
             try:
@@ -1277,12 +1281,7 @@ class IRGenerator:
                             existing_dt._ast_node.lineno),
                         item.lineno, item.path)
             else:
-                existing_dt = env[item.name]
-                raise InvalidSpec(
-                    'Symbol %s already defined (%s:%d).' % (
-                        quote(item.name), existing_dt._ast_node.path,
-                        existing_dt._ast_node.lineno),
-                    item.lineno, item.path)
+                self._raise_symbol_already_defined(env[item.name], item)
         else:
             env[item.name] = ApiRoutesByVersion()
 
